@@ -382,7 +382,10 @@ def edge_magnitude_vectors():
     """the smallest and largest expressible weights, alone and next to zeros (totals of 1e-9 .. 6.4e10)"""
     for ws in (["0.000000001"], ["0", "0.000000001", "0"], ["0.000000001", "0.000000001"], ["0.000000001", "0", "0.000000002"],
                ["1000000000"] * 64, ["1000000000", "0.000000001"], ["0.000000001", "1000000000"], ["10.0", "1"], ["20.0", "250.00", "1000000000.0"],
-               ["100", "1.0", "10.50"], ["4294967296", "1"], ["8589934592", "8589934592"], ["3.0", "2.00", "105.0"]):
+               ["100", "1.0", "10.50"], ["4294967296", "1"], ["8589934592", "8589934592"], ["3.0", "2.00", "105.0"],
+               # uneven shares written with the smallest expressible weights only (all within 1e-8 of each other in absolute terms)
+               ["0.000000001", "0.000000002"], ["0.000000001", "0.000000009"], ["0.000000003", "0.000000001", "0.000000002"],
+               ["0.000000009", "0.000000001", "0", "0.000000005"], ["0.00000001", "0.00000003"], ["0.0000001", "0.0000001", "0.0000002"]):
         for via in ("direct", "dsl"):
             yield {"ws": ws, "ks": _positions(ws, [1, GRID // 2, GRID - 2]), "via": via}
 
